@@ -355,6 +355,11 @@ def corpus():
                      mul(P(0), exp(mul(P(1), X)))))
     L.append(line_lm(1e-6, 1e-6, 1e-2, [1.5, -200.0], [4.5, 5.0, 6.25, 7.0, 9.0, 11.5], [2.0, 1.9, 1.7, 1.6, 1.3, 1.1], range(0, 6),
                      mul(P(0), exp(mul(P(1), X)))))
+    # seeded change C10m (`<=` instead of `<` in SGD's stop test): 1.0 -> 1 - 2^-52 is a relative change of exactly
+    # 2^-52; the run must go on (x_k = 1 - k 2^-52), also with momentum, and for 2^51 -> 2^51 - 0.5
+    L.append(line_sgd(0.5, 0.0, False, [1.0], range(1, 11), mul(C(2.0 ** -51), P(0))))
+    L.append(line_sgd(0.5, 0.5, False, [2.0 ** 51], range(1, 11), mul(C(1.0), P(0))))
+    L.append(line_sgd(0.5, 0.0, False, [4.0], range(1, 11), mul(C(2.0 ** -52), powi(P(0), 2))))
     # Adam::new rejects beta <= 0
     L.append(line_adam(0.1, 0.0, 0.999, 1e-8, [1.0], [1], sq))
     L.append(line_adam(0.1, 0.9, -0.5, 1e-8, [1.0], [1], sq))
@@ -628,6 +633,107 @@ def route_lines(rng, count, cover):
     return L
 
 
+def exact_boundary(cover):
+    """Deterministic enumeration.  Linear objectives c*x and quadratics a*x^2 with power-of-two step sizes and
+    coefficients, starts on powers of two and their ulp-neighbours, so that the first step changes the parameter by
+    exactly 0, 2^-54, 2^-53, 2^-52 (the tie of `max rel_change < EPSILON`), 2^-51, 2^-50 relative, towards and away
+    from zero, for k = 1..10; plain / momentum / Nesterov SGD and Adam; zero gradients, zero and signed-zero
+    parameters; LM: ties of the eps1 / eps2 tests, gain ratio exactly 0, 0/0 and 1/2."""
+    L = []
+
+    def cnt(k):
+        cover["boundary:" + k] = cover.get("boundary:" + k, 0) + 1
+    ks = range(1, 11)
+    modes = [("plain", 0.0, False), ("momentum", 0.5, False), ("nesterov", 0.5, True)]
+    lr = 0.5
+    JS = [None, -54, -53, -52, -51, -50]
+    for e in (0, 2, 51, -10):
+        Pw = 2.0 ** e
+        for sgn in (1.0, -1.0):
+            for j in JS:
+                for away in ((False,) if j is None else (False, True)):
+                    delta = 0.0 if j is None else 2.0 ** (e + j)
+                    # x' = x - lr*c : towards zero means lr*c has the sign of x
+                    c = (sgn if not away else -sgn) * delta / lr
+                    for name, mom, nest in modes:
+                        L.append(line_sgd(lr, mom, nest, [sgn * Pw], ks, mul(C(c), P(0)) if e != 2 else mul(P(0), C(c))))
+                        cnt("sgd-linear:%s:%s" % (name, "0" if j is None else "2^%d" % j))
+    # quadratics a x^2 from x0 = 4 * 2^e: lr * 2 a x0 = x0 * 2^j
+    for e in (0, 2):
+        x0 = 4.0 * 2.0 ** e
+        for j in JS[1:]:
+            a = 2.0 ** j / (2 * lr)
+            for name, mom, nest in modes:
+                L.append(line_sgd(lr, mom, nest, [x0], ks, mul(C(a), powi(P(0), 2))))
+                cnt("sgd-quadratic:%s:2^%d" % (name, j))
+    # ulp-neighbours of a power of two as starts
+    for e in (0, 51):
+        Pw = 2.0 ** e
+        for x0 in (Pw - 2.0 ** (e - 53), Pw + 2.0 ** (e - 52), Pw - 2.0 ** (e - 52)):
+            for d in (2.0 ** (e - 53), -2.0 ** (e - 53), 2.0 ** (e - 52), -2.0 ** (e - 52), 2.0 ** (e - 54)):
+                for name, mom, nest in modes[:2]:
+                    L.append(line_sgd(lr, mom, nest, [x0], ks, mul(C(d / lr), P(0))))
+                    cnt("sgd-ulp-neighbour:" + name)
+    # two coordinates: the first sits on the tie, the second moves by 0 / less / more
+    for c1 in (0.0, 2.0 ** -60, 2.0 ** -40):
+        for name, mom, nest in modes:
+            L.append(line_sgd(lr, mom, nest, [1.0, 1.0], ks, add(mul(C(2.0 ** -51), P(0)), mul(C(c1), P(1)))))
+            cnt("sgd-2d-tie:" + name)
+    # zero gradient at the start, zero and signed-zero parameters (denominator of the relative change)
+    for x0 in (0.0, -0.0):
+        for c in (0.0, -0.0, 2.0 ** -60, -1.0, 2.0 ** -1074):
+            for name, mom, nest in modes:
+                L.append(line_sgd(lr, mom, nest, [x0], ks, mul(C(c), P(0))))
+                cnt("sgd-zero-param:" + name)
+        for name, mom, nest in modes:
+            L.append(line_sgd(lr, mom, nest, [x0, 1.0], ks, add(mul(C(2.0), powi(P(0), 2)), powi(sub(P(1), C(1.0)), 2))))
+            cnt("sgd-zero-gradient:" + name)
+    for name, mom, nest in modes:
+        L.append(line_sgd(0.25, mom, nest, [1.25, -3.0], ks, sepquad([1.0, 2.0], [1.25, -3.0])))
+        cnt("sgd-zero-gradient:" + name)
+    # Adam: with eps = 0 (or absorbed) and a power-of-two gradient the first step is exactly the step size
+    for e in (0, 51):
+        Pw = 2.0 ** e
+        for sgn in (1.0, -1.0):
+            for j in JS[1:]:
+                for away in (False, True):
+                    for (b1, b2) in ((0.5, 0.5), (0.9, 0.999)):
+                        for eps in (0.0, 2.0 ** -70):
+                            c = sgn if not away else -sgn
+                            L.append(line_adam(2.0 ** (e + j), b1, b2, eps, [sgn * Pw], ks, mul(C(c), P(0))))
+                            cnt("adam-linear:2^%d" % j)
+    for x0 in (1.0, 0.0, -0.0):
+        for eps in (2.0 ** -70, 1e-8, 0.0):
+            L.append(line_adam(0.125, 0.5, 0.5, eps, [x0], ks, mul(C(0.0), P(0))))     # eps = 0: 0/0
+            cnt("adam-zero-gradient")
+    L.append(line_adam(0.125, 0.9, 0.999, 1e-8, [0.0, 1.0], ks, add(powi(P(0), 2), powi(sub(P(1), C(1.0)), 2))))
+    cnt("adam-zero-gradient")
+    # ---- LM: model `p0` (Jacobian of ones), two points
+    lk = range(0, 5)
+    one = [P(0)] and P(0)
+    up = lambda x: math.nextafter(x, math.inf)
+    dn = lambda x: math.nextafter(x, -math.inf)
+    for eps1 in (dn(1.0), 1.0, up(1.0)):            # |J^T r|_1 = 1 exactly: `<= eps1`
+        L.append(line_lm(eps1, 0.0, 0.5, [1.0], [0.0, 1.0], [1.0, 2.0], lk, one))
+        cnt("lm-eps1-tie")
+    for y2 in (dn(6.25), 6.25, up(6.25)):           # |delta| = 0.8125 = eps2 (|theta| + eps2) exactly: `<=`
+        L.append(line_lm(0.0, 0.25, 0.5, [3.0], [0.0, 1.0], [3.0, y2], lk, one))
+        cnt("lm-eps2-tie")
+    for y2 in (dn(2.0), 2.0, up(2.0)):              # mu = -1/2: the trial point mirrors the start, rss' = rss, rho = 0
+        L.append(line_lm(0.0, 0.0, -0.25, [1.0], [0.0, 1.0], [1.0, y2], lk, one))
+        cnt("lm-rho-zero")
+    for tau in (-0.25 * (1 + 2.0 ** -30), -0.25 * (1 - 2.0 ** -30)):   # just short of / beyond the mirror point
+        L.append(line_lm(0.0, 0.0, tau, [1.0], [0.0, 1.0], [1.0, 2.0], lk, one))
+        cnt("lm-rho-zero")
+    for th0 in (1.5, dn(1.5), up(1.5)):             # start on the optimum, negative tolerances: delta = 0, rho = 0/0
+        L.append(line_lm(-1.0, -1.0, 0.5, [th0], [0.0, 1.0], [1.0, 2.0], lk, one))
+        cnt("lm-rho-nan")
+    for y1 in (dn(1.25), 1.25, up(1.25)):           # model p0*x, sum x^2 = 1/8, mu = 3: rho = 1/2 exactly, mu := 1
+        L.append(line_lm(0.0, 0.0, 24.0, [1.0], [0.25, 0.25], [y1, 0.25], lk, mul(P(0), X)))
+        cnt("lm-rho-half")
+    return L
+
+
 def lm_hostile(rng, count, cover):
     """Starts from which the first trial points overflow (exp), produce inf - inf / 0 * inf / x/0, or where a Jacobian
     column underflows to 0 (singular damped normal matrix, NaN step): the gain ratio is NaN and the step must be
@@ -734,6 +840,9 @@ def gen(rng, tier):
         lines.append(l)
     # peripheral routes to a configured optimizer: clone, Default, with_stepsize, set_stepsize, public fields
     for l in route_lines(rng, 12 if not thorough else 80, cover):
+        lines.append(l)
+    # exact boundaries of every stop / accept test
+    for l in exact_boundary(cover):
         lines.append(l)
     # LM from hostile starts: overflow / NaN trial points, vanishing Jacobian columns, extreme damping
     for l in lm_hostile(rng, 40 if not thorough else 400, cover):
@@ -1061,6 +1170,17 @@ def check_traj(kind, t, reply_toks, F, stats, crate_rule=False):
                     key = kind + "-recurrence"
                 return (key, "maxsteps=%d parameter %d: returned %r, published recurrence from the previous iterate gives %r (+-%g)"
                         % (tt, i, cur[i], mid, rad))
+        # exact rule: the stop test (evaluated exactly) had not fired before this step, yet the run returned the previous
+        # iterate bit for bit although the published step provably moves a parameter (the enclosure of the new value
+        # excludes the old one by more than 8 of its widths): the run stopped while the parameters were still moving
+        if [f2h(x) for x in cur] == [f2h(x) for x in prev]:
+            for i in range(n):
+                lo, hi = float(exp_[i][0].a), float(exp_[i][0].b)
+                gap = lo - prev[i] if lo > prev[i] else (prev[i] - hi if hi < prev[i] else 0.0)
+                if gap > 8 * (hi - lo) + 2.0 ** -1060:
+                    return (kind + "-stopped-while-moving",
+                            "maxsteps=%d returns the iterate of maxsteps=%d (%r) although the stop test max rel_change < 2^-52 "
+                            "had not fired and the published step moves parameter %d to [%r, %r]" % (tt, tt - 1, prev, i, lo, hi))
         stats["steps"] = stats.get("steps", 0) + 1
         st = stopped_exact(cur, prev)
         if st:
@@ -1145,6 +1265,8 @@ def check_lm(t, reply_toks, M, stats, FI=None):
             hostile = True
     except Exception:
         hostile = True   # the model is not even defined at the start (division by zero): only finiteness is judged
+    if not (tau >= 0):
+        hostile = True   # negative damping (boundary lines only): descent is not promised, only finiteness is judged
     if hostile:
         stats["lm_hostile_start"] = stats.get("lm_hostile_start", 0) + 1
     prev_rss = None
